@@ -8,6 +8,8 @@ key and inside `TreeTransform.new(num_threads=)` pipelines; `iter_utils.iterate_
 SELF / Key.Literal / nested-path inputs (also under ignore_error with a following operator)
 and ignorable errors that have to cross a re-batcher (`Assign.iterate`,
 `iter_utils.processed_with_inputs`, the input / output re-batchers of `TreeFn._iterate`).
+`vlib/c19w4.py` holds the fourth widening: select of Key.Literal inputs with batch_size
+(the constant must not go through the OUTPUT re-batcher as if it were a column).
 
 Oracle: plain Python. Every cell of every column carries a unique id
 (value = 100000 * column + global row index), so the expected output of a re-batching
@@ -24,6 +26,7 @@ import random
 import re
 
 from vlib import c19w3
+from vlib import c19w4
 
 ID = 'C19'
 LEVEL = 'exploration'
@@ -73,7 +76,7 @@ RULE = (
     'fn_batch_size. (literal) apply(fn, inputs = 1-2 columns + one Key.Literal at any '
     'position, positional or keyword) over all size sequences of length <= 3 over sizes '
     '0..3 x 7 literals (scalar, list, tuple, array, empty list) x 7 (a, b), plus random '
-    'cases of which 35% have every input batch as long as the literal.' + c19w3.RULE)
+    'cases of which 35% have every input batch as long as the literal.' + c19w3.RULE + c19w4.RULE)
 ASSUMPTIONS = [
     'the stream is passed as an iterator (the signature says Iterator; a list is '
     'double-counted by the num_columns inference and is not generated)',
@@ -132,7 +135,7 @@ ASSUMPTIONS = [
     'iterate_fn: the per-row fn is pure apart from time.sleep; its result must be '
     'independent of multithread=; >= 1 row (an empty batch with a 2-output fn cannot be '
     'transposed and is not generated)',
-] + c19w3.ASSUMPTIONS
+] + c19w3.ASSUMPTIONS + c19w4.ASSUMPTIONS
 REQUIRED = ['direct_checks', 'concat_checks', 'size_checks', 'alignment_checks',
             'pad_checks', 'infer_checks', 'given_columns_checks',
             'empty_stream_checks', 'zero_size_batch_checks', 'passthrough_checks',
@@ -147,7 +150,7 @@ REQUIRED = ['direct_checks', 'concat_checks', 'size_checks', 'alignment_checks',
             'bad_record_selection_error_checks', 'bad_record_none_column_checks',
             'bad_record_scalar_column_checks', 'bad_record_unequal_columns_checks',
             'literal_checks', 'literal_fn_batch_checks', 'literal_scalar_checks',
-            'literal_sequence_checks', 'literal_batch_length_checks'] + c19w3.REQUIRED
+            'literal_sequence_checks', 'literal_batch_length_checks'] + c19w3.REQUIRED + c19w4.REQUIRED
 EXHAUSTIVE = {'quick': True, 'thorough': True}
 CHUNK_TIMEOUT_S = {'quick': 240, 'thorough': 3000}
 
@@ -1915,6 +1918,8 @@ def plan(tier, seed):
   # third widening (vlib/c19w3.py): assign with SELF / literal / nested inputs, also
   # under ignore_error; ignorable errors that have to cross a re-batcher
   widened.extend(c19w3.plan(tier, seed))
+  # fourth widening (vlib/c19w4.py): select of Key.Literal inputs with batch_size
+  widened.extend(c19w4.plan(tier, seed))
   # Started first: the sleeping / barrier cases need wall time, not CPU, and the
   # first witnesses of a run then cover every widened input class.
   first = [threaded[1], threaded[-1], multi[2]] + [
@@ -1981,6 +1986,8 @@ def run_chunk(ctx, spec):
       _run_literal_random(ctx, cnt, spec)
     elif mode.startswith('w3_'):
       c19w3.run_chunk(ctx, cnt, spec)
+    elif mode.startswith('w4_'):
+      c19w4.run_chunk(ctx, cnt, spec)
     elif mode == 'ragged_sweep':
       _run_ragged_sweep(ctx, cnt, spec)
     elif mode == 'ragged_random':
@@ -2019,6 +2026,8 @@ def run_case(ctx, case):
       check_literal(ctx, cnt, case)
     elif api in ('assign_w3', 'skiperr'):
       c19w3.run_case(ctx, cnt, case)
+    elif api == 'litsel':
+      c19w4.run_case(ctx, cnt, case)
     else:
       check_pipeline(ctx, cnt, case)
   finally:
